@@ -606,6 +606,7 @@ class Interp:
         self.track_observed = False   # record which input symbols are consumed by arithmetic / library / opaque calls
         self.observed = set()
         self.loops = []           # loop records (see run_loop)
+        self.loop_inits = {}      # phi atom id -> value of that location on loop entry
         self.closure_runs = []    # per-element closure evaluations of iterator adaptors (tables._adaptor)
         self.assumed = set()      # keys of branch conditions whose other arms all diverge (assertions)
         from . import tables as T
@@ -777,6 +778,10 @@ class Interp:
         pre_all = self.snap(st)
         self.havoc_loop(st, cfg, header, L)
         phi_vals = [c.v for c in st.cells]
+        # value each loop-carried location had on entry, by its phi symbol (library models of stateful adaptors look through the phi)
+        for v0, v1 in zip(pre_vals, phi_vals):
+            if v1 is not v0 and isinstance(v1, Sym):
+                self.loop_inits[v1.atom.id] = v0
         own = {id(c) for c in st.cells}
         # storage outside the frame (targets of &mut arguments, heap cells) that the loop may write
         ext = [{'cell': c, 'init': v0, 'phi': c.v, 'back': []} for c, v0 in pre_all if id(c) not in own and c.v is not v0]
